@@ -2,6 +2,7 @@
    channel end the session at once (also in the middle of a blocked reply write), and the whole
    loop refines the same loop over the reference server. *)
 From Coq Require Import NArith List Lia Bool.
+From Rodbus Require Gen.WritePath.
 From Rodbus Require Import Base.Outcome Base.ServerTypes Base.ServerRun Model.Server Model.ServerRun Spec.Modbus
   Proofs.ServerProofs.
 Import ListNotations.
@@ -113,6 +114,19 @@ Proof.
   destruct (run hf units' (last levels d) MIdle rest) as [[[[ws u] lg'] dd] e]. reflexivity.
 Qed.
 End Generic.
+
+(* ---------------------------------------------------------------- the write step and the code's write_reply *)
+(* In the transition system ONE write is pending per reply: a ChangeDecoding that arrives meanwhile leaves the
+   mode `MWriting r` - the same pending reply, nothing re-sent - and EWriteDone delivers r exactly once. This is
+   the shape `WriteOnceRacedAgainstCommands` that the translator reads off server/task.rs::write_reply
+   (Gen/WritePath.v): one io.write future raced against a command loop. A write that is re-created after every
+   command (the other shape) would re-send the bytes already taken by the transport. *)
+Lemma write_step_once {St E} (hf : ucfg St -> frame -> outcome E (list N) * ucfg St * list event) units d r lvl rest :
+  Rodbus.Gen.WritePath.write_reply_shape = Rodbus.Gen.WritePath.WriteOnceRacedAgainstCommands /\
+  run hf units d (MWriting r) (ECommand (ChangeDecoding lvl) :: rest) = run hf units lvl (MWriting r) rest /\
+  run hf units d (MWriting r) (EWriteDone :: rest) =
+    (let '(ws, u, lg, dd, e) := run hf units d MIdle rest in (r :: ws, u, lg, dd, e)).
+Proof. repeat split. Qed.
 
 (* ---------------------------------------------------------------- two handlers that agree *)
 Lemma run_ext {St E} (hf hf' : ucfg St -> frame -> outcome E (list N) * ucfg St * list event) (P : frame -> Prop) :
